@@ -379,27 +379,29 @@ def r4(repo, res):
 
 
 def r5(repo, res):
+    """VCF / probe-table input: genotype() folded whole -- the structure stage is given the fixed two-copy structure, whatever
+    the caller asked for, and the sample is loaded with that profile."""
+    from checks._genotype import GenotypeModel, Scenario, events
+
     g = repo.func("genotype::genotype")
     res.analysed(g)
-    c = cfg_of(g)
+    gm = GenotypeModel(repo)
     for kind in ("vcf", "pscan"):
-        removed = c.prune(decide_with({kind_name(g): kind}))
-        ctor = [x for x in calls_in(g) if call_name(x) in ("Profile", "Profile.load")
-                and c.is_reachable(c.node_of(x), removed)]
-        ok = len(ctor) >= 1
-        found = []
-        for x in ctor:
-            v = kwarg(x, "cn_solution")
+        for user_cn, prof in ((None, None), (None, "illumina"), (["1", "1", "1"], None)):
             try:
-                lit = ast.literal_eval(v) if v is not None else None
-            except Exception:
-                lit = "<non-literal>"
-            found.append(f"{call_name(x)}(cn_solution={lit!r})")
-            ok = ok and lit == ["1", "1"]
-        res.ob("C16.R5", g, ctor[0] if ctor else g, ok,
-               expected="VCF/pscan input builds the profile with the literal two-copy structure ['1', '1']",
-               found=", ".join(found) or "no profile construction on this route",
-               clause="VCF mode fixes the structure to two copies", key=f"two-copies|{kind}")
+                k, v, trace, _ = gm.run(Scenario(kind=kind, avg_coverage=0.0, args=dict(output_file=None, cn_solution=user_cn, profile_name=prof)))
+            except Unfoldable as e:
+                res.err("C16.R5", f"genotype() outside the folding language: {e}")
+                return
+            ev_ = events(trace, "estimate_cn")
+            sm = events(trace, "Sample")
+            seen = ev_[0][5]["profile"].get("cn_solution") if ev_ else None
+            at_load = sm[0][7].get("cn_solution") if sm and sm[0][7] else None
+            ok = k == "return" and seen == ["1", "1"] and at_load == ["1", "1"]
+            res.ob("C16.R5", g, g, ok,
+                   expected=f"{kind} input (structure asked: {user_cn}, profile: {prof}): the run completes without a depth check and the stages see the two-copy structure ['1', '1']",
+                   found=f"{k}; structure at load {at_load}, at the structure stage {seen}",
+                   clause="VCF mode fixes the structure to two copies", key=f"two-copies|{kind}|{user_cn}|{prof}")
 
 
 REF_SEQ = "ACGTTGCAACGG"  # reference bases at 0-based positions 100..111
